@@ -49,6 +49,7 @@ type RunSpec struct {
 	Prop      string `json:"prop"`
 	Seed      uint64 `json:"seed"`
 	Replay    []int  `json:"replay,omitempty"`
+	MaxSteps  int    `json:"max_steps,omitempty"`
 	KeepTrace bool   `json:"keep_trace,omitempty"`
 	Variant   string `json:"variant,omitempty"`
 	Tier      string `json:"tier,omitempty"`
@@ -118,6 +119,7 @@ type WorkerSummary struct {
 	WallS           float64        `json:"wall_s"`
 	Variants        int            `json:"variants"`
 	HarnessErrs     []string       `json:"harness_errs,omitempty"`
+	Unfinished      []string       `json:"unfinished,omitempty"`
 	AbandonedPanics []string       `json:"abandoned_panics,omitempty"`
 }
 
@@ -466,6 +468,7 @@ func check(prop, tier string) int {
 			agg.Samples = append(agg.Samples, s.Samples...)
 		}
 		agg.HarnessErrs = append(agg.HarnessErrs, s.HarnessErrs...)
+		agg.Unfinished = append(agg.Unfinished, s.Unfinished...)
 		agg.AbandonedPanics = append(agg.AbandonedPanics, s.AbandonedPanics...)
 	}
 	if len(agg.Samples) > 3 {
